@@ -213,6 +213,10 @@ func applyOp(h map[int]codon.Table, op c08Op, n int) string {
 		h[op.T] = t
 	case "rt":
 		h[op.T] = roundtrip(h[op.H], n%7 == 0)
+	case "save":
+		codon.WriteCodonJSON(h[op.H], c08File)
+	case "load":
+		h[op.T] = codon.ReadCodonJSON(c08File)
 	default:
 		fatal("C08 unknown op %q", op.Op)
 	}
@@ -234,6 +238,12 @@ func matches(obs map[string]int, nom sparse, tol int) bool {
 }
 
 var c08Count int
+
+// c08File: the session's JSON file.  ONE path for the whole process, never removed or truncated by the harness: what
+// a load yields must be what the last save wrote, whatever earlier histories left at (or read from) that path.
+var c08File = func() string {
+	return tmpFile([]byte(strings.Repeat("{\"stale\": \"content of an earlier, longer document\"} ", 200)))
+}()
 
 func c08Replay(c json.RawMessage) Verdict {
 	var cs struct {
@@ -393,6 +403,7 @@ func c08Record(tier string, seed int64, emit func(interface{})) {
 		h := map[int]codon.Table{}
 		code := map[int]int{}
 		big := 0
+		saved, savedCode := false, 0
 		for st := 0; st < 1+rng.Intn(maxSteps); st++ {
 			t := st % 3
 			var live []int
@@ -447,6 +458,15 @@ func c08Record(tier string, seed int64, emit func(interface{})) {
 						ev = map[string]interface{}{"op": "comp", "h1": p[0], "h2": p[1], "cut": cut, "t": t}
 					}
 				}
+			case r == 8 && rng.Intn(2) == 0:
+				x := live[rng.Intn(len(live))]
+				codon.WriteCodonJSON(h[x], c08File)
+				saved, savedCode = true, code[x]
+				ev = map[string]interface{}{"op": "save", "h": x}
+			case r == 8 && saved:
+				h[t] = codon.ReadCodonJSON(c08File)
+				code[t] = savedCode
+				ev = map[string]interface{}{"op": "load", "t": t}
 			default:
 				x := live[rng.Intn(len(live))]
 				h[t] = roundtrip(h[x], rng.Intn(4) == 0)
